@@ -9,7 +9,21 @@ from vf.props import specrun
 from vf.props.e2e import outcome_label, ALL_META
 
 
-def strategy():
+@st.composite
+def strategy(draw, later=None):
+    spec = draw(base_strategy())
+    if later or (later is None and draw(st.integers(0, 7)) == 0):
+        # the header id is changed after everything was added: with the defining origin's FILE-ID brought in line the
+        # file must carry the new id in both places; without, the write has to be refused
+        later = later or draw(st.sampled_from(['sync', 'no-sync']))
+        lf = spec['lfs'][draw(st.integers(0, len(spec['lfs']) - 1))]
+        lf.setdefault('hdr', {})['id_later'] = draw(st.sampled_from(['FINAL-DELIVERY', 'X', 'N' * 65, 'A B']))
+        lf['hdr']['id_later_sync'] = later == 'sync'
+        spec['hdr_later'] = later
+    return spec
+
+
+def base_strategy():
     base = dict(vrl=[256, 8192], max_frames=2, max_channels=3, max_rows=3, max_width=2, meta_kinds=ALL_META,
                 max_meta=6, units=False, max_origins=3, origin_position=('first', 'middle', 'last'), shuffle=True,
                 noformat=2, nf_payload_max=20, hdr_variants=True, named_sets=True, origin_sets_differ=True)
@@ -93,9 +107,13 @@ class C09(Property):
 
     def searches(self, ctx):
         n = 3200 if ctx.tier == 'quick' else 40000
-        return [('orders', strategy(), n // ctx.nshards)]
+        from vf.core import stratified
+        return [('orders', strategy(), n // ctx.nshards)] + \
+            stratified('header-id-changed-later', lambda k: strategy(k), ['sync', 'no-sync'], n // 10, ctx)
 
     def run(self, spec, ctx):
+        spec = dict(spec)
+        later = spec.pop('hdr_later', None)
         r, dec, ferr = specrun.write_and_decode(spec, ctx)
         ops0 = spec['lfs'][0]['ops']
         first_or = next((k for k, op in enumerate(ops0) if op['t'] == 'origin'), 0)
@@ -104,6 +122,14 @@ class C09(Property):
         labels = [l for l, f in (('origin-not-first', first_or > 0), ('origins>=2', n_or >= 2), ('named-set', named),
                                  ('lfs>=2', len(spec['lfs']) >= 2)) if f]
         nt = bool(labels)
+        if later:
+            labels.append('header-id-changed-later:' + later)
+            nt = True
+            if later == 'sync' and r['outcome'] != 'written':
+                # nothing is wrong with this specification (the same one with the id given up front is written)
+                tn, site = __import__('vf.dw', fromlist=['x']).exc_site(r['exc'])
+                return Result([Violation(f"consistent-late-header-id-refused/{tn}@{site}", str(r['exc'])[:300])],
+                              labels, nt, outcome_label(r))
         if r['outcome'] != 'written':
             return Result([], labels, False, outcome_label(r))
         if ferr is not None:
